@@ -120,6 +120,10 @@ class MessageSerializer(object):
         if attr_val is not None:
           return MethodReturnMessage(error=attr_val)
 
-    return MethodReturnMessage(TApplicationException(
+    if not result_spec or result_spec[0] is None:
+      # A void method has no success field: an empty result is its reply.
+      return MethodReturnMessage()
+
+    return MethodReturnMessage(error=TApplicationException(
       TApplicationException.MISSING_RESULT, "%s failed: unknown result" % fn_name))
 
